@@ -34,6 +34,9 @@ C["C03"]["jobs"]+= [job("pin-ffffffff",".","VH_Reassembler",["C03/"],{"k":3,"max
 C["C10"]=reasm("C10")
 c19=[job("nil-stream",".","VH_ReassemblerNilStream",["C19/"],bounds="symbolic maxInFlight (8 bit) and timeout (64 bit)"),
      job("api-k3-inf",".","VH_Reassembler",["C19/"],{"k":3,"maxInFlight":2},Q,bounds="k=3 then Close, post-Close Maintain/Close; infinite timeout")]
+c19.append(job("api-k2-postclose2",".","VH_Reassembler",["C19/"],{"k":2,"maxInFlight":2,"postclose":2},Q,bounds="k=2 then Close, then 2 more pushes (symbolic), then Maintain and Close: both fail and deliver nothing, whatever the late pushes left buffered"))
+c19.append(job("api-k2-postclose2-mif0",".","VH_Reassembler",["C19/"],{"k":2,"maxInFlight":0,"postclose":2},T,bounds="as api-k2-postclose2 with maxInFlight=0"))
+c19.append(job("api-k3-postclose3",".","VH_Reassembler",["C19/"],{"k":3,"maxInFlight":2,"postclose":3},T,bounds="k=3, Close, 3 pushes, Maintain, Close"))
 c19.append(job("api-k3-maxduration",".","VH_Reassembler",["C19/"],{"k":3,"maxInFlight":2,"timeout_mode":6},Q,bounds="k=3 then Close; timeout = the largest time.Duration (2^63-1 ns)"))
 c19.append(job("api-k3-250years",".","VH_Reassembler",["C19/"],{"k":3,"maxInFlight":1,"timeout_mode":7},Q,bounds="k=3 then Close; timeout = 250 years"))
 for tm,name in [(1,"-1s"),(2,"0"),(3,"5ms"),(4,"2s")]:
@@ -94,6 +97,8 @@ c18.append(job("recv-0-64",".","VH_NetlinkReceive",["C18/"],{"maxlen":64,"bufsz"
 c18.append(job("recv-large",".","VH_NetlinkReceive",["C18/"],{"maxlen":0,"exact":8986,"bufsz":8986},T,no_native=True,bounds="Receive: datagram of 8986 bytes (full audit buffer)"))
 c18.append(job("parser-0-40",".","VH_ParseAuditMessage",["C18/"],{"maxlen":40},Q,bounds="parseNetlinkAuditMessage on every buffer length 0..40 with symbolic contents"))
 c18.append(job("send-2threads",".","VH_NetlinkSendConcurrent",["C18/"],{"threads":2,"preemptions":3},Q,no_native=True,bounds="2 goroutines x 2 Sends on one client, every interleaving at synchronisation operations (incl. a scheduling point inside the sendto stub) with at most 3 preemptions; race detection by vector clocks"))
+c18.append(job("send-2threads-1failure",".","VH_NetlinkSendConcurrent",["C18/"],{"threads":2,"preemptions":3,"failures":1},Q,no_native=True,bounds="2 goroutines x 2 Sends, any one of the four (or none) refused by sendto with EAGAIN: sequence numbers of the successful Sends stay distinct, increasing per sender and on the wire once; at most 3 preemptions"))
+c18.append(job("send-3threads-1failure",".","VH_NetlinkSendConcurrent",["C18/"],{"threads":3,"preemptions":2,"failures":1},T,no_native=True,bounds="3 goroutines x 2 Sends, one refused, at most 2 preemptions"))
 c18.append(job("send-3threads",".","VH_NetlinkSendConcurrent",["C18/"],{"threads":3,"preemptions":2},T,no_native=True,bounds="3 goroutines x 2 Sends, at most 2 preemptions"))
 C["C18"]={"jobs":c18,"assumptions":["syscall.Sendto/Recvfrom/Close are harness-side stubs (engine only); NetlinkClient is constructed directly, Socket/Bind are outside","sequence wrap at 2^32 stated as mod-2^32 increase","counterexamples are confirmed in the engine's concrete mode (the native build cannot be given stubbed syscall results)"],
   "outside":["the real sockets and the kernel's echo behaviour on NETLINK_ROUTE/NETLINK_USERSOCK (I/O)","NewNetlinkClient (Socket/Bind/Getsockname)"]}
@@ -260,6 +265,10 @@ for i,pg in enumerate(PROGS):
         if nth==2 and not long_ and re_==0:
             c11.append(job(f"prog{i}-{rn}-3preempt",".","VH_Concurrent",["C11/"],{"program":i,"reenter":re_,"preemptions":3,"maxInFlight":1,"types":3},T,no_native=True,
                 bounds=f"threads {pg}, types incl. EOE, at most 3 preemptions"))
+for i in (0,1,3,4,9,12):
+    for mif in (2,4):
+        c11.append(job(f"prog{i}-plain-mif{mif}",".","VH_Concurrent",["C11/"],{"program":i,"reenter":0,"preemptions":2,"maxInFlight":mif,"types":2},Q if mif==2 else T,no_native=True,
+            bounds=f"threads {PROGS[i]}, maxInFlight={mif} (buffer not full: events stay buffered across the racing calls), at most 2 preemptions"))
 C["C11"]={"jobs":c11,"assumptions":["goroutines are engine threads; a context switch is offered only at synchronisation operations (mutex lock/unlock, sync/atomic, thread start/exit, callback entry); between two such points a thread runs alone, which is sound for assertion violations provided the program is race free, and race freedom is checked on every explored schedule (vector clocks over mutex, atomic, start/join edges)",
    "context bound: schedules with at most the stated number of preemptions","constant clock, timeout far in the future","counterexamples are confirmed in the engine's concrete mode (a native run cannot be forced into a schedule)"],
    "outside":["weak-memory effects below Go's happens-before model","more threads/operations/preemptions than stated","the randomly scheduled long runs under the race detector mentioned in the quantifier (sampling; not built)"]}
@@ -269,12 +278,14 @@ COAL_ASSUME=["the normalisation tables come from a table image regenerated nativ
 c09=[job("file-object","aucoalesce","VH_FileObject",["C09/"],{"nsys":3,"maxpaths":2},Q,bounds="SYSCALL (open|rename|unlink) + 1..2 PATH records, the selected one with a symbolic 16-bit st_mode (all 65536 values) and nametype NORMAL|CREATE|DELETE, the other PARENT"),
      job("file-object-5sys-3paths","aucoalesce","VH_FileObject",["C09/"],{"nsys":5,"maxpaths":3},T,bounds="5 syscalls (incl. mknod, mount) + 1..3 PATH records, symbolic st_mode"),
      job("single-record","aucoalesce","VH_Conservation",["C09/"],{"shape":0,"named":1},T,bounds="one record of 6 types with every subset of a 16-key pool"),
+     job("single-record-each-type","aucoalesce","VH_Conservation",["C09/"],{"shape":2},Q,bounds="one record of every type the normalisation table knows, carrying every key that type's normalisations name (subject/object/how/source_ip/has_fields) plus 7 common keys, minus at most one key; values plain tokens or IP literals"),
      job("single-record-anytype","aucoalesce","VH_Conservation",["C09/"],{"shape":0,"named":0},T,bounds="one record of a symbolic 16-bit type with every subset of the key pool",max_paths=400000),
      job("groups-2extra","aucoalesce","VH_Conservation",["C09/"],{"shape":1,"maxextra":2,"execve_extra":1},Q,bounds="SYSCALL first / other record first / no SYSCALL, plus 0..2 further records from {PATH, EXECVE, SOCKADDR, CWD/PROCTITLE/AVC/BPRM_FCAPS with optional key collision, a record whose Data() fails}, in any order"),
      job("groups-3extra","aucoalesce","VH_Conservation",["C09/"],{"shape":1,"maxextra":3,"execve_extra":1},T,bounds="as above with 0..3 further records")]
 C["C09"]={"jobs":c09,"assumptions":COAL_ASSUME+["any non-empty Warnings excuses a lost field (which wording 'names the problem' is not for the check to decide)","at most one EXECVE and one SOCKADDR record per group"],
   "outside":["groups with more than 4-5 records","the regex tokenizer (C05/C12)","ECS fields"]}
 c15=[job("repeatable","aucoalesce","VH_Repeatable",["C15/"],{},Q,bounds="four concrete groups (execve with PATH/CWD/EXECVE, failed connect with SOCKADDR/PROCTITLE, USER_LOGIN, AVC+SYSCALL) through the real Parse: Data/Tags snapshots before and after, second coalesce equal, earlier event unchanged by a later coalesce")]
+c15.append(job("table-isolation","aucoalesce","VH_TableIsolation",["C15/"],{},Q,bounds="for every record type of the normalisation table: {that record, SYSCALL} in both orders x 4 syscall pairs (open/creat/connect/execve/setuid): first event unchanged by the second coalesce, same text coalesces to the same event again, no store into any list of the shared tables (frozen up to capacity)"))
 c15.append(job("concurrent-2",  "aucoalesce","VH_ConcurrentResolve",["C15/"],{"threads":2,"preemptions":2},Q,no_native=True,bounds="2 goroutines, each coalescing its own (different) group and resolving IDs against shared user/group caches; every interleaving at synchronisation operations with at most 2 preemptions; race detection (heap cells and maps) by vector clocks; results equal the sequential ones"))
 c15.append(job("concurrent-3",  "aucoalesce","VH_ConcurrentResolve",["C15/"],{"threads":3,"preemptions":2},T,no_native=True,bounds="3 goroutines, at most 2 preemptions"))
 C["C15"]={"jobs":c15,"assumptions":COAL_ASSUME,"outside":["arbitrary message text (C05 covers the parser's totality)","ResolveIDs against real user databases"]}
@@ -305,6 +316,11 @@ for (a,b) in [("uid","arch"),("arch","uid"),("path","perm"),("perm","path"),("ex
     if b=="msgtype": continue
     c07.append(job(f"two-{a}-{b}","rule/flags","VH_RoundTrip",["C07/"],{"shape":0,"field":RTF.index(a),"second":RTF.index(b),"list":0,"digits":3,"strmax":1,"maxkeys":1,"sysforms":2,"oneop":1,"realpath":1},Q,expect=["C07/accepted-by-build"],
        bounds=f"two filters in the order {a}, {b} (field order, watch-shaped rules)"))
+import itertools
+for trio in [("path","perm","uid"),("dir","perm","success")]:
+    for (a,b,c) in itertools.permutations(trio):
+        c07.append(job(f"three-{a}-{b}-{c}","rule/flags","VH_RoundTrip",["C07/"],{"shape":0,"field":RTF.index(a),"second":RTF.index(b),"third":RTF.index(c),"list":0,"digits":2,"strmax":1,"maxkeys":1,"sysforms":2,"oneop":1,"realpath":1},
+            Q if trio[0]=="path" else T,expect=["C07/accepted-by-build"],bounds=f"three filters in the order {a}, {b}, {c} x {{no -S, -S open|execve|all}} x 0..1 key (string-table cursor, almost-watch-shaped rules)"))
 c07.append(job("compare-alone","rule/flags","VH_RoundTrip",["C07/"],{"shape":0,"field":0,"list":0,"compare":2,"maxkeys":0,"sysforms":1},Q,expect=["C07/accepted-by-build"],bounds="syscall rule whose only filter is -C a<op>b: 25 UAPI pairs x both orders x {=, !=} x action"))
 c07.append(job("compare-alone-S-key","rule/flags","VH_RoundTrip",["C07/"],{"shape":0,"field":0,"list":0,"compare":2,"maxkeys":1,"sysforms":3},T,expect=["C07/accepted-by-build"],bounds="as compare-alone x {no -S, -S name, -S number} x 0..1 key"))
 c07.append(job("compare-after-filter","rule/flags","VH_RoundTrip",["C07/"],{"shape":0,"field":0,"list":0,"digits":2,"compare":1,"maxkeys":0,"sysforms":1,"oneop":1},Q,expect=["C07/accepted-by-build"],bounds="pid filter followed by a -C comparison (25 pairs x both orders x 2 operators)"))
